@@ -19,18 +19,25 @@ CLAIMS = {
          "standard (General Decimal Arithmetic) definition assigns to the exact quotient; "
          "fraction path and Decimal.quantize path are the same function of the value; error "
          "bounds; default-mode and zero-divisor behaviour. The dispatch around the kernels "
-         "(Quantity.quantize / round) is tied by correspondence against the real code.",
+         "(Quantity.quantize with the quantum in any unit of the type, negative quanta, other types, "
+         "quantised types, Decimal and Fraction amounts; round(q, n)) is tied by correspondence "
+         "against the real code in the predefined catalogue and in random user histories.",
          "6 C13", NOTE + "decimalfp's Decimal.quantize is hand-modelled (decQuantize) and checked by correspondence."),
  "C07": ("Lean 4 proof (denotational semantics of the term model) + differential correspondence",
          "Theorems (Props/C07.lean): every path of _reduce_items (all n_items shortcuts, both "
          "keep_item_order modes), normalisation, product, quotient, reciprocal, power and scalar "
          "operations preserve / compute the value a term denotes under EVERY admissible valuation "
          "of its elements; equality is sound and implies equal hash keys; split/num_elem agree; "
-         "shape of the numeric part of the normal form. The hand-written model is tied to "
-         "term.py by running ~1.7k operations per run on random element environments against "
-         "the real Term class. Partial: completeness of equality is false of the code for "
-         "non-convertible elements sharing a sort key (known finding D5, negation proved); "
-         "ordering/uniqueness of the non-numeric part of the normal form is checked by the oracle, not proved.",
+         "normalisation is idempotent and yields the canonical form (one numeric item in front, "
+         "then base elements only, ascending sort keys, each once, non-zero exponents), also for "
+         "every registry reachable by well-formed declarations; reduction preserves the rational "
+         "factor and every exponent (free-abelian-group semantics); two terms are equal EXACTLY "
+         "when they denote the same factor and the same exponent for every base element, provided "
+         "no two distinct base elements occurring in them share a sort key. The hand-written model "
+         "is tied to term.py by running ~1.7k operations per run on random element environments "
+         "against the real Term class, each operation also with operands whose cached normal form / "
+         "hash were warmed before. Partial: that proviso fails for units of a type without "
+         "reference unit (known finding D5, negation proved).",
          "6 C07", NOTE),
  "C20": ("Lean 4 proof by kernel evaluation (decide +kernel, no axioms) of the registry model replaying the translated predefined.py, against a hand-written SI reference table; exhaustive correspondence",
          "Gen/Catalogue.lean, Gen/Prefixes.lean, Gen/DocTables.lean are regenerated from predefined.py / si_prefixes.py on every run. "
